@@ -405,13 +405,19 @@ fn iter_with_next<T>(
 fn write_long_bracket(value: &[u8]) -> Option<String> {
     let stringified = str::from_utf8(value).ok()?;
 
+    // the closing bracket must not be completed by the closing delimiter itself (a value
+    // ending with `]=` would end a `[=[` string one byte early): search it in the value
+    // followed by the first `]` of the delimiter
+    let mut searched = value.to_vec();
+    searched.push(b']');
+
     let mut i: usize = value.ends_with(b"]").into();
     let mut equals = b"=".repeat(i);
     equals.insert(0, b']');
     equals.push(b']');
 
     loop {
-        if value.find(&equals).is_none() {
+        if searched.find(&equals).is_none() {
             break;
         } else {
             i += 1;
